@@ -8,6 +8,7 @@ T: every placer configuration on generated problems; the returned placement / ex
 import random
 import signal
 
+from rig.links import Links
 from rig.netlist import Net
 from rig.place_and_route import Machine, Cores, SDRAM, SRAM
 from rig.place_and_route.constraints import (LocationConstraint, SameChipConstraint, ReserveResourceConstraint,
@@ -270,6 +271,266 @@ def large_problems(rng, chk):
     return out
 
 
+# ---------------------------------------------------------------------------------------------------------------
+# Further input families (audit, round 6).  They use their own random stream so that the problems above stay the same.
+
+def dead_links_for(rng, w, h, mode):
+    """dead links of a w x h machine: 'nowrap' = every link that leaves the rectangle (what a machine without
+    wrap-around cables looks like: the annealing kernels take another branch), 'random' = each link with probability
+    0.3, 'isolated' = one or two chips with all six links (and the links towards them) dead, 'all' = every link"""
+    dead = set()
+    if mode in ("nowrap", "nowrap+isolated"):
+        for x in range(w):
+            dead |= {(x, 0, Links.south), (x, 0, Links.south_west), (x, h - 1, Links.north), (x, h - 1, Links.north_east)}
+        for y in range(h):
+            dead |= {(0, y, Links.west), (0, y, Links.south_west), (w - 1, y, Links.east), (w - 1, y, Links.north_east)}
+    if mode == "random":
+        dead |= {(x, y, l) for x in range(w) for y in range(h) for l in Links if rng.random() < 0.3}
+    if mode in ("isolated", "nowrap+isolated"):
+        for _ in range(rng.randint(1, 2)):
+            x, y = rng.randrange(w), rng.randrange(h)
+            for l in Links:
+                dx, dy = l.to_vector()
+                dead.add((x, y, l))
+                dead.add(((x + dx) % w, (y + dy) % h, l.opposite))
+    if mode == "all":
+        dead |= {(x, y, l) for x in range(w) for y in range(h) for l in Links}
+    return dead
+
+
+class _Thing(object):
+    """a vertex that is just an object: hashable by identity, not orderable"""
+    __slots__ = ()
+
+
+def mixed_vertices(rng, names, m):
+    """vertices are 'any hashable object': plain objects, integers, floats, tuples (some equal to chip coordinates),
+    frozen sets, byte strings, None and strings side by side - nothing that could be sorted"""
+    chips = list(m)
+    out, used = {}, set()
+    for i, v in enumerate(names):
+        for _ in range(20):
+            k = rng.randrange(9)
+            cand = (_Thing() if k == 0 else object() if k == 1 else 100 + i if k == 2 else 0.5 + i if k == 3 else
+                    rng.choice(chips) if k == 4 else frozenset([i, "f"]) if k == 5 else b"b%d" % i if k == 6 else
+                    None if k == 7 else (i, "t%d" % i))
+            if cand not in used:
+                break
+        else:
+            cand = object()
+        used.add(cand)
+        out[v] = cand
+    return out
+
+
+def rename(vr, nets, cons, mp):
+    vr2 = {mp[v]: res for v, res in vr.items()}
+    nets2 = [Net(mp[n.source], [mp[v] for v in n.sinks], n.weight) for n in nets]
+    cons2 = []
+    for c in cons:
+        if isinstance(c, LocationConstraint):
+            c = LocationConstraint(mp[c.vertex], c.location)
+        elif isinstance(c, SameChipConstraint):
+            c = SameChipConstraint([mp[v] for v in c.vertices])
+        elif isinstance(c, RouteEndpointConstraint):
+            c = RouteEndpointConstraint(mp[c.vertex], c.route)
+        cons2.append(c)
+    return vr2, nets2, cons2
+
+
+def gen_feasible_problem(rng):
+    """a general problem (2-3 resources, dead chips, exceptions, reservations, same-chip groups - chained, with
+    duplicated members -, located group members) built around a hidden feasible placement with 40-90 % of every chip
+    used: unlike the random general problems (which mostly cannot be placed once they contain a group) most of these
+    ARE placed, so merged and pinned vertices really go through placement, annealing swaps and expansion"""
+    w, h = rng.choice(((2, 1), (2, 2), (3, 2), (3, 3), (4, 3), (5, 4), (1, 4)))
+    names = RES[:rng.choice((2, 2, 3))]
+    order = list(names)
+    rng.shuffle(order)
+    resources = {r: rng.randint(3, 9) for r in order}
+    dead = {(x, y) for x in range(w) for y in range(h) if rng.random() < 0.1}
+    if len(dead) == w * h:
+        dead.pop()
+    exc = {}
+    for _ in range(rng.randint(0, 3)):
+        keys = list(names)
+        rng.shuffle(keys)
+        exc[(rng.randrange(w), rng.randrange(h))] = {r: rng.randint(1, 10) for r in keys}
+    mode = rng.choice(("none", "nowrap", "nowrap", "random"))
+    m = Machine(w, h, chip_resources=resources, chip_resource_exceptions=exc, dead_chips=dead,
+                dead_links=dead_links_for(rng, w, h, mode))
+    chips = list(m)
+    cons = []
+    free = {xy: dict(m[xy]) for xy in chips}
+    if rng.random() < 0.5:
+        r = rng.choice(names)
+        lo = min([free[xy][r] for xy in chips] + [resources[r]])
+        if lo > 1:
+            cons.append(ReserveResourceConstraint(r, slice(0, 1)))
+            for xy in chips:
+                free[xy][r] -= 1
+    if rng.random() < 0.5:
+        xy, r = rng.choice(chips), rng.choice(names)
+        if free[xy][r] > 0:
+            n = rng.randint(1, free[xy][r])
+            cons.append(ReserveResourceConstraint(r, slice(0, n), xy))
+            free[xy][r] -= n
+    hidden = {}
+    k = 0
+    for xy in chips:
+        left = dict(free[xy])
+        budget = {r: int(left[r] * rng.choice((0.4, 0.6, 0.9, 1.0))) for r in names}
+        for _ in range(rng.randint(0, 6)):
+            keys = [r for r in names if rng.random() < 0.85]
+            rng.shuffle(keys)
+            need = {r: rng.choice((0, 1, 1, 2, 3)) for r in keys}
+            if all(need.get(r, 0) <= budget[r] for r in names):
+                for r in names:
+                    budget[r] -= need.get(r, 0)
+                hidden["g%d" % k] = (xy, need)
+                k += 1
+    vs = list(hidden)
+    rng.shuffle(vs)
+    vr = {v: hidden[v][1] for v in vs}
+    on = {}
+    for v in vs:
+        on.setdefault(hidden[v][0], []).append(v)
+    crowded = [xy for xy in on if len(on[xy]) >= 2]
+    rng.shuffle(crowded)
+    for xy in crowded[:rng.randint(1, 4)]:
+        grp = [rng.choice(on[xy]) for _ in range(rng.randint(2, 4))]
+        cons.append(SameChipConstraint(grp))
+        if rng.random() < 0.5:
+            cons.append(SameChipConstraint([rng.choice(grp), rng.choice(on[xy])]))       # a chain
+    pinned = list(on)
+    rng.shuffle(pinned)
+    for xy in pinned[:rng.randint(0, 3)]:
+        cons.append(LocationConstraint(rng.choice(on[xy]), xy))          # (at most one per chip)
+    nets = [Net(rng.choice(vs), [rng.choice(vs) for _ in range(rng.randint(1, 4))], rng.choice((1, 1, 2.5)))
+            for _ in range(2 * len(vs))] if vs else []
+    rng.shuffle(cons)
+    return vr, nets, m, cons
+
+
+def extra_problems(rng, chk):
+    """(tag, easy_generated, vr, nets, machine, constraints) - see the families in run()'s rule text"""
+    out = []
+    modes = ("nowrap", "nowrap", "random", "isolated", "nowrap+isolated", "all")
+    n_links = chk.pick(48, 600)
+    for i in range(n_links):
+        easy = i % 2 == 0
+        vr, nets, m, cons = gen_problem(rng, easy, chk)
+        mode = modes[i % len(modes)]
+        m = Machine(m.width, m.height, m.chip_resources, m.chip_resource_exceptions, m.dead_chips,
+                    dead_links_for(rng, m.width, m.height, mode))
+        tag = "links-" + mode
+        names = list(vr)
+        # nets without sinks, same-chip constraints over nothing / one vertex: legal and without effect
+        if names and rng.random() < 0.4:
+            nets = nets + [Net(rng.choice(names), [])]
+            rng.shuffle(nets)
+        if rng.random() < 0.3:
+            cons = cons + [SameChipConstraint([])] + ([SameChipConstraint([rng.choice(names)])] if names else [])
+            rng.shuffle(cons)
+        if names and i % 3 == 0:
+            vr, nets, cons = rename(vr, nets, cons, mixed_vertices(rng, names, m))
+            tag += "+mixed"
+        out.append((tag, easy, vr, nets, m, cons))
+    for i in range(chk.pick(40, 500)):
+        vr, nets, m, cons = gen_feasible_problem(rng)
+        tag = "feasible-general"
+        if vr and i % 4 == 0:
+            vr, nets, cons = rename(vr, nets, cons, mixed_vertices(rng, list(vr), m))
+            tag += "+mixed"
+        out.append((tag, False, vr, nets, m, cons))
+    # a location constraint naming a dead chip or a chip outside the machine: no placement can honour it
+    for i in range(chk.pick(16, 200)):
+        easy = i % 2 == 0
+        vr, nets, m, cons = gen_problem(rng, easy, chk)
+        names = list(vr)
+        if not names:
+            continue
+        if i % 4 < 2 and not m.dead_chips and len(list(m)) > 1:
+            # one more chip dies (one that no constraint names)
+            named = {c.location for c in cons if getattr(c, "location", None) is not None}
+            spare = [xy for xy in m if xy not in named]
+            if spare:
+                m = Machine(m.width, m.height, m.chip_resources, m.chip_resource_exceptions,
+                            m.dead_chips | {rng.choice(spare)}, m.dead_links)
+        dead = sorted(m.dead_chips)
+        where = (rng.choice(dead) if dead and i % 4 < 2 else
+                 rng.choice(((m.width, 0), (0, m.height), (-1, 0), (m.width + 2, m.height + 3))))
+        cons = cons + [LocationConstraint(rng.choice(names), where)]
+        rng.shuffle(cons)
+        out.append(("location-unavailable", easy, vr, nets, m, cons))
+    # machines without any resource type: everything fits everywhere
+    for i in range(chk.pick(6, 60)):
+        w, h = rng.randint(1, 4), rng.randint(1, 4)
+        dead = {(rng.randrange(w), rng.randrange(h))} if w * h > 1 and rng.random() < 0.5 else set()
+        m = Machine(w, h, chip_resources={}, dead_chips=dead,
+                    dead_links=dead_links_for(rng, w, h, rng.choice(("nowrap", "none"))))
+        names = ["z%d" % k for k in range(rng.randint(0, 7))]
+        vr = {v: {} for v in names}
+        cons = [LocationConstraint(v, rng.choice(list(m))) for v in names[:rng.randint(0, 2)]]
+        nets = [Net(rng.choice(names), [rng.choice(names) for _ in range(rng.randint(0, 3))]) for _ in range(len(names))]
+        out.append(("no-resources", True, vr, nets, m, cons))
+    return out
+
+
+def option_placers(vr, m, seedbase):
+    """the optional parameters of the annealer and the random placer left out, or used the other way"""
+    def glob(f):
+        def g(a):
+            random.seed(seedbase)         # the placers' default generator is the random module itself
+            return f(a)
+        return g
+    return [
+        ("rand-defaultrng", glob(lambda a: rand.place(*a))),
+        ("sa-defaults", glob(lambda a: sa.place(*a))),                       # default kernel, effort, generator
+        ("sa-python-0.1-nocallback", lambda a: sa.place(*a, effort=0.1, random=random.Random(seedbase),
+                                                        kernel=PythonKernel, kernel_kwargs={"no_warn": True})),
+    ]
+
+
+def run_extras(chk, traces):
+    rng = random.Random(chk.seed * 7919 + 20260925)
+    tags = {}
+    for i, (tag, easy, vr, nets, m, cons) in enumerate(extra_problems(rng, chk)):
+        tags[tag] = tags.get(tag, 0) + 1
+        vidx = {v: k + 1 for k, v in enumerate(vr)}
+        tr = problem_json(vr, m, cons, vidx)
+        tr["easy_generated"] = easy
+        tr["family"] = tag
+        evs = []
+        args = (vr, nets, m, cons)
+        seedbase = chk.seed * 1000003 + 500000 + i
+        for name, f in placers(rng, vr, m, seedbase) + option_placers(vr, m, seedbase):
+            run_one(name, f, args, vidx, len(vr), evs)
+            chk.evaluations += 1
+        for kn, (kname, kern) in enumerate((("python", PythonKernel), ("c", CKernel))):
+            if kern is None:
+                continue
+            # watched at every temperature change; for one of the two kernels the callback stops the anneal at once
+            stop = (i // 2 + kn) % 2 == 1
+            snaps = []
+
+            def cb(it, placements, cost, acc, temp, dist, snaps=snaps, stop=stop):
+                if len(snaps) < 4:
+                    snaps.append(placement_json(placements, vidx, len(vr)))
+                return False if stop else None
+            run_one("sa-%s-0.1%s" % (kname, "-stopped" if stop else ""),
+                    lambda a, kern=kern, cb=cb: sa.place(*a, effort=0.1, random=random.Random(seedbase + 1),
+                                                         kernel=kern, on_temperature_change=cb),
+                    args, vidx, len(vr), evs, snaps)
+            chk.evaluations += 1
+        tr["ev"] = evs
+        traces.append(tr)
+        chk._nontrivial.add(str((tag, tr["chips"], tr["vres"], tr["loc"], tr["same"], tr["gres"], tr["lres"])))
+    for tag, n in sorted(tags.items()):
+        chk.count("extra problems: " + tag.split("+")[0], n)
+    return sum(tags.values())
+
+
 def run_one(name, f, args, vidx, n, evs, snapshots=None):
     signal.signal(signal.SIGALRM, _alarm)
     signal.setitimer(signal.ITIMER_REAL, WATCHDOG_S)
@@ -349,6 +610,7 @@ def run(chk):
         tr["ev"] = evs
         traces.append(tr)
         chk._nontrivial.add(str((tr["w"], tr["h"], len(vr))))
+    nextra = run_extras(chk, traces)
     nraise = sum(1 for t in traces for e in t["ev"] if e[0] == "raise")
     nplaced = sum(1 for t in traces for e in t["ev"] if e[0] == "placed")
     nswap = sum(1 for t in traces for e in t["ev"] if e[0] == "swap")
@@ -362,7 +624,14 @@ def run(chk):
                 "custom orders, breadth-first, Hilbert x2, RCM, random, annealing effort 0) + annealing with the "
                 "Python and C kernels at effort 0.1/1.0 on a subset; plus pipelines of 1100-1600 vertices and machines of over 1100 chips through the "
                 "placers other than annealing; evaluations = placer runs; distinct = distinct "
-                "problem" % nprob)
+                "problem; plus %d further problems (own random stream): machines with dead links - no wrap-around "
+                "links, random dead links, chips cut off from all neighbours, no working link at all -, general problems built around a hidden "
+                "feasible placement (so that groups and pinned members really are placed and annealed), vertices that "
+                "are arbitrary unorderable hashable objects, nets without sinks, empty / singleton same-chip "
+                "constraints, a location constraint on a dead chip or outside the machine, machines without any "
+                "resource type; each through the 9 configurations, the random placer and the annealer with every "
+                "optional parameter left out, and both kernels watched by a callback that for one of the two "
+                "stops the anneal at once" % (nprob, nextra))
     chk.exhaustive = False
     chk.assumptions.append("termination is observed with a %d s watchdog per placer run (an observation, not a proof)"
                            % WATCHDOG_S)
